@@ -27,6 +27,8 @@ ASSUMPTIONS = [
     "closed by such a fill belongs to the instrument's history like any other",
     "direct / summary modes: exit times are non-decreasing per instrument only - across instruments they may be equal or "
     "reported late (behind another key's exit, a balance update or TradingSummaryGenerator::update_time_now)",
+    "the tear-sheet generators are serialisable: a serde_json store/restore of every running generator between two events "
+    "(spec action Persist, a stutter) must leave the generated summary, now and later, unchanged",
     "engine mode: producing the closed position from fills is C02's subject - a deviation there is a tool error, not a C16 verdict",
 ]
 MODES = ("direct", "summary", "engine")
@@ -75,7 +77,7 @@ def check(ctx):
     ctx.assumptions += ASSUMPTIONS
     ctx.build("c16")
     # (-coverage makes TLC several times slower here: vacuity is checked on the small configuration)
-    ctx.tlc_actions("MC_" + MODULE, "MC_Stats_C16_small.cfg", ["AddClosedAny", "AddBalanceAny", "GenerateAny"])
+    ctx.tlc_actions("MC_" + MODULE, "MC_Stats_C16_small.cfg", ["AddClosedAny", "AddBalanceAny", "GenerateAny", "PersistAny"])
     ctx.tlc_mc("MC_" + MODULE, "MC_Stats_C16.cfg" if ctx.quick else "MC_Stats_C16_thorough.cfg", timeout=2400, coverage=False)
     gens = [("enumerated", "GenT_Stats_C16.cfg", None)]
     if not ctx.quick:
@@ -98,7 +100,7 @@ def check(ctx):
                 arms[k] = arms.get(k, 0) + v
     # (runs cut short by a violation exercise fewer arms: vacuity is only judged on a clean run)
     if not ctx.violations and not all(arms.get(k) for k in ("win", "loss", "break_even", "balance", "generate_event", "keyed_by_name",
-                                                            "crossing_fill", "equal_exit_time", "late_reported_exit", "clock_update")):
+                                                            "crossing_fill", "equal_exit_time", "late_reported_exit", "clock_update", "store_restore")):
         raise vlib.ToolError("vacuous run: a kind of event was never replayed: %s" % arms)
     return ctx.finish(extra={"arm_hits": arms, "violations_by_signature_and_mode": counts})
 
